@@ -10,7 +10,7 @@ from dataclasses import dataclass
 from typing import Any
 
 from symex.case import Case
-from entity_query_language import an, entity, let, symbolic_mode, rule_mode, symbol, predicate
+from entity_query_language import an, the, entity, let, symbolic_mode, rule_mode, symbol, predicate, MultipleSolutionFound, NoSolutionFound
 from entity_query_language.symbolic import in_symbolic_mode, SymbolicExpression, Variable
 from entity_query_language.enums import EQLMode
 
@@ -49,6 +49,12 @@ class C08(Case):
             q0 = an(entity(x, x.a > 0))
             y = let(Thing, domain=things)
             q1 = an(entity(y, y.a < 9))
+            z = let(Thing, domain=things)
+            the_one = the(entity(z, z.a == 2))
+            z2 = let(Thing, domain=things)
+            the_many = the(entity(z2, z2.a > 0))
+            z3 = let(Thing, domain=things)
+            the_none = the(entity(z3, z3.a > 9))
         queries = [q0, q1]
         cr = [q._conditions_root_ for q in queries]
         first = sp.get("first")  # optional fixed first ops (partition of the history space over workers)
@@ -86,7 +92,7 @@ class C08(Case):
             return (real, executed, rejected, rejected_eq)
 
         for t in range(H):
-            enabled = ["ENTER_Q", "ENTER_R", "ENTER_WQ", "ENTER_RQ"]
+            enabled = ["ENTER_Q", "ENTER_R", "ENTER_WQ", "ENTER_RQ", "THE_VALUE", "THE_MANY", "THE_NONE"]
             if frames:
                 enabled += ["EXIT", "EXIT_EXC"]
             free = [i for i in range(2) if gens[i] is None]
@@ -127,6 +133,21 @@ class C08(Case):
                         ref_modes.pop()
                     if pe:
                         ref_expr.pop()
+                elif op == "THE_VALUE":
+                    if the_one.evaluate().a != 2:
+                        raise RuntimeError("the(...) returned a wrong value")
+                elif op == "THE_MANY":
+                    try:
+                        the_many.evaluate()
+                        raise RuntimeError("the(...) over three solutions did not raise")
+                    except MultipleSolutionFound:
+                        pass   # handled inside whatever block is open; the block goes on
+                elif op == "THE_NONE":
+                    try:
+                        the_none.evaluate()
+                        raise RuntimeError("the(...) over no solution did not raise")
+                    except NoSolutionFound:
+                        pass
                 elif op.startswith("GEN_NEW"):
                     i = int(op[-1]); gens[i] = queries[i].evaluate()
                 elif op.startswith("GEN_NEXT"):
@@ -190,7 +211,7 @@ def make_case(spec):
     return C08(spec)
 
 
-FIRST_OPS = ["ENTER_Q", "ENTER_R", "ENTER_WQ", "ENTER_RQ", "GEN_NEW0"]
+FIRST_OPS = ["ENTER_Q", "ENTER_R", "ENTER_WQ", "ENTER_RQ", "GEN_NEW0", "THE_MANY"]
 
 
 def shapes(tier, seed):
@@ -198,8 +219,10 @@ def shapes(tier, seed):
     out = []
     # partition the history space by its first two ops so that 16 workers share it
     for a in FIRST_OPS:
-        second = ["ENTER_Q", "ENTER_R", "ENTER_WQ", "ENTER_RQ"]
-        if a != "GEN_NEW0":
+        second = ["ENTER_Q", "ENTER_R", "ENTER_WQ", "ENTER_RQ", "THE_VALUE", "THE_MANY", "THE_NONE"]
+        if a == "THE_MANY":
+            second += ["GEN_NEW0"]
+        elif a != "GEN_NEW0":
             second += ["EXIT", "EXIT_EXC", "GEN_NEW0"]
         else:
             second += ["GEN_NEW1", "GEN_NEXT0", "GEN_CLOSE0", "GEN_DROP0", "GEN_EXHAUST0"]
